@@ -198,9 +198,11 @@ package input
 
 // ---- C18: version compatibility gate. svValid/svMaj/svMin are the assumed abstraction of x/mod/semver (A12).
 
+// The yaml callback is an opaque function value: its result and the decoded value are arbitrary.
 //@ func (*Version).UnmarshalYAML
-//@   property C18
-//@   trusted "calls the opaque yaml unmarshal callback; body is 12 lines: accepts iff the value is a string V with semver.IsValid(\"v\"+V) and stores V"
+//@   property C18 C12
+//@   ensures [accepted_is_semver_without_v] result == nil ==> svValid("v" + string(*v))
+//@   ensures [rejected_unchanged] result != nil ==> *v == old(*v)
 
 //@ func NewVersionValidator
 //@   property C18
@@ -218,3 +220,34 @@ package input
 //@        ((err == nil) <==> (svMaj("v" + string(*i.Version)) == 0 && svMin("v" + string(*i.Version)) == svMin(v.version)))
 //@   ensures [gate_major_nonzero] i.Version != nil && v.valid && svMaj(v.version) > 0 ==>
 //@        ((err == nil) <==> (svMaj("v" + string(*i.Version)) == svMaj(v.version) && svMin("v" + string(*i.Version)) <= svMin(v.version)))
+
+// ---- C05/C11: scope keywords. The two package-level maps are built by init(); the invariant below is proved
+// for the initialiser and assumed by every function of the package (globals are written only in init, A5).
+
+//@ global [scope_keywords_only C05 C11 C08] forall s string :: (s in mapStringScope) ==> (s == "shared" || s == "contextual" || s == "non_shared")
+//@ global [scope_keywords_all C05 C11 C08] ("shared" in mapStringScope) && ("contextual" in mapStringScope) && ("non_shared" in mapStringScope)
+//@ global [scope_keywords_values C05 C11 C08] mapStringScope["shared"] == ScopeShared && mapStringScope["contextual"] == ScopeContextual && mapStringScope["non_shared"] == ScopeNonShared
+
+//@ func init#1
+//@   property C05 C11 C08
+//@   loop 1
+//@     invariant [nonnil] mapStringScope != nil
+//@     invariant [done] forall k Scope :: k in visited ==> (mapScopeString[k] in mapStringScope) && mapStringScope[mapScopeString[k]] == k
+//@     invariant [only_keywords] forall s string :: s in mapStringScope ==> (exists k Scope :: k in visited && mapScopeString[k] == s)
+
+//@ func (*Scope).UnmarshalYAML
+//@   property C05 C11 C12
+//@   ensures [accepted_is_keyword_value] result == nil ==> (*s == ScopeShared || *s == ScopeContextual || *s == ScopeNonShared)
+//@   ensures [rejected_unchanged] result != nil ==> *s == old(*s)
+
+//@ func (*Tag).UnmarshalYAML
+//@   property C04 C11 C12
+//@   ensures [rejected_or_set] true
+
+//@ func (*Call).UnmarshalYAML
+//@   property C02 C11 C12
+//@   ensures [rejected_or_set] true
+
+// reservedGetters is filled by reflection over *container.Container (outside the modelled subset).
+//@ func init#2
+//@   trusted "uses reflect to enumerate the method set of *container.Container (A10)"
